@@ -468,6 +468,9 @@ class Unit:
         gen_c = re.search(r'\bC\b', (f.generics or '')) or True
         if self.cfg.get('auto_algebra', True) and not (c and c.nohints):
             entry = 'proof { crate::vspec::use_algebra::<C>(); crate::vspec::use_id_order::<C>(); }\n' + entry
+        if self.cfg.get('canary'):
+            # vacuity guard (DESIGN 2.7): with this flag every verified function must FAIL
+            entry = entry + '\nassert(false); /*@CANARY*/'
         if entry:
             t = '{\n' + entry + '\n' + t[1:]
         return t
@@ -604,12 +607,26 @@ class Unit:
                 if t[e2] != ')':
                     raise ExtractError('%s: closure %d is not the only argument of .%s()' % (key, k, mm.group(1)))
                 e2 += 1
-                cm = re.match(r'\s*\.\s*collect\s*(::\s*<[^()]*>)?\s*\(\s*\)', t[e2:])
-                if cm:
-                    e2 += cm.end()
-                t = t[:rs] + 'crate::vstdx::%s(%s, %s)' % (K['adaptor'], recv, clo) + t[e2:]
-                self.rule('E7.adaptor_helper.' + K['adaptor'])
-                meta['rules'].append('E7:' + K['adaptor'])
+                helper = K['adaptor'].split()[0]
+                suffix = ''.join(K['adaptor'].split()[1:])
+                if suffix:
+                    # the text after `)` must equal the given suffix modulo whitespace
+                    n2 = e2
+                    got = ''
+                    while n2 < len(t) and len(got) < len(suffix):
+                        if not t[n2].isspace():
+                            got += t[n2]
+                        n2 += 1
+                    if got != suffix:
+                        raise ExtractError('%s: lost anchor: closure %d is not followed by `%s`' % (key, k, suffix))
+                    e2 = n2
+                else:
+                    cm = re.match(r'\s*\.\s*collect\s*(::\s*<[^()]*>)?\s*\(\s*\)', t[e2:])
+                    if cm:
+                        e2 += cm.end()
+                t = t[:rs] + 'crate::vstdx::%s(%s, %s)' % (helper, recv, clo) + t[e2:]
+                self.rule('E7.adaptor_helper.' + helper)
+                meta['rules'].append('E7:' + helper)
             else:
                 t = t[:a] + clo + t[be:]
         return t
